@@ -231,4 +231,11 @@ theorem grace_expiry_arm_is_the_models (c : Cfg) (u : U) (w : Why) (hp : u.phase
 example : (run { period := 1000, terminateAfter := none, grace := 300, leak := 100 } (U.spawn { period := 1000, terminateAfter := none, grace := 300, leak := 100 })
     [.time 50, .req (.shutdown (.once .hangup)), .time 100, .req (.shutdown .twice)]).2 = [.kill .hup, .kill .kill] := by decide
 
+/-- **a shutdown signal's cancellation is broadcast to every running unit as that shutdown request** (dispatcher.rs `run`, as
+    translated on this run), unconditionally -/
+theorem shutdown_is_always_broadcast (q : Dispatcher.ShutdownReq) :
+    Dispatcher.responseRow (.cancelSignal q) = ("Cancel/Signal", [("shutdown", true)]) ∧
+    ("Cancel/Signal", [("shutdown", true)]) ∈ Gen.responseBroadcasts := by
+  refine ⟨rfl, by decide⟩
+
 end NextestModel.C11
